@@ -63,6 +63,12 @@ CLAIMED = {
         "known finding KF-C08-filtered-duplicates (pinned by test_filtered) is mirrored by the model, characterised exactly (stripDup) and reported as KNOWN-FINDING",
         "DESIGN.md §6 C08",
     ),
+    "C17": (
+        "Lean 4 theorems (export loops = path-based node/edge specification; numbering bijection; RDF triple set) + parsing of the real DOT/Mermaid text and rdflib graphs",
+        "The exports are modelled as structured output (declared keys with labels, edges with labels, RDF triples) following the loops of dot.py/mermaid.py/rdf.py; theorems: declared nodes = one per distinct data_id (or per tree node), edges = exactly one per node whose parent is exported, carrying kind and name, Mermaid numbering is a bijection, RDF triples = specification set, excluding the root removes exactly its declaration and the edges leaving it. Tie: the emitted text / rdflib graph of the real exports is parsed into the same structure for all small plain and typed trees with clones, every start node, 3 formats x unique_nodes x add_root/add_self.",
+        "label quoting/escaping and the Graphviz/mmdc conversions are not modelled; rdflib's set semantics is trusted",
+        "DESIGN.md §6 C17",
+    ),
     "C18": (
         "Lean 4 theorems about a small-step lock semantics + `decide` over the lock programs regenerated from the source text + controlled two-thread schedules on the real code",
         "The translator abstracts every snapshot method of the source to a program over acq/rel/read/call; `generated_guarded` (decide over the regenerated table) states that every read happens while the lock is held and `generated_reentrant` that the lock is an RLock; the interleaving theorems (mutual exclusion, snapshot atomicity, blocking, no self-deadlock) hold for all guarded programs and all schedules. Tie/search: thread A holds `with tree:` with a sentinel in the tree while thread B runs each snapshot operation; B must block and never see the sentinel; nested re-entrant use; stress runs with paired writes.",
